@@ -118,3 +118,46 @@ package base58
 //@   assert after CheckDecode#1: len($ret0) == len(input)
 //@   assert after CheckDecode#1: forall k :: 0 <= k && k < len(input) ==> $ret0[k] == input[k]
 //@   assert after CheckDecode#1: b58c.isenc($arg0.ref) && $arg0.off == 0 && len($arg0) == b58c.enclen($arg0.ref)
+
+//@ lemmafunc base58.lemmaEncodeDecode
+//@   requires forall k :: 0 <= k && k < len(s) ==> b58[int(s[k])] != 255
+//@   uses b58_rest_nonneg
+//@   skolemize base58.Decode
+//@   bind after Decode#1: $o = b58.ones(s, 0, len(s))
+//@   bind after Decode#1: $V = b58.valfrom(s, 0, len(s))
+//@   assert after Decode#1 as DG from nothing: forall c u8 :: b58.dig(c) == 255 || (0 <= b58.dig(c) && b58.dig(c) < 58)
+//@   assert after Decode#1 as SV: forall k :: 0 <= k && k < len(s) ==> 0 <= b58.dig(s[k]) && b58.dig(s[k]) < 58
+//@   assert after Decode#1: lemma b58_ones_props(s, len(s), len(s))
+//@   assert after Decode#1: 0 <= $o && $o <= len(s) && (forall k :: 0 <= k && k < $o ==> s[k] == 49) && ($o == len(s) || s[$o] != 49)
+//@   assert after Decode#1: len($ret) >= $o && (forall k :: 0 <= k && k < $o ==> $ret[k] == 0) && big.beo($ret, $o, len($ret) - $o) == $V && (len($ret) > $o ==> $ret[$o] != 0)
+//@   assert after Decode#1: lemma b58_val_ones(s, 0, $o, len(s))
+//@   assert after Decode#1: lemma b58_val_is_valr(s, $o, (len(s) - $o))
+//@   assert after Decode#1: $V == b58.valr(s, $o, (len(s) - $o))
+//@   assert after Decode#1: lemma b58_rest_valr(s, $o, (len(s) - $o), (len(s) - $o))
+//@   assert after Decode#1: b58.rest($V, (len(s) - $o)) == 0
+//@   assert after Decode#1: lemma b58_rest_valr(s, $o, (len(s) - $o), (len(s) - $o) - 1)
+//@   assert after Decode#1: (len(s) - $o) > 0 ==> b58.rest($V, (len(s) - $o) - 1) == b58.dig(s[$o]) && b58.dig(s[$o]) > 0
+//@   bind after Encode#1: $t = $ret
+//@   assert after Encode#1: len($arg0) >= $o && (forall k :: 0 <= k && k < $o ==> $arg0[k] == 0) && big.beo($arg0, $o, len($arg0) - $o) == $V && (len($arg0) > $o ==> $arg0[$o] != 0)
+//@   assert after Encode#1: lemma b58_lz_count($arg0, $o, $o, len($arg0))
+//@   assert after Encode#1: b58.lz($arg0, 0, len($arg0)) == $o
+//@   assert after Encode#1: lemma be_strip($arg0, $o, len($arg0) - $o)
+//@   assert after Encode#1: big.be($arg0, len($arg0)) == $V
+//@   assert after Encode#1: len($t) >= $o && b58.rest($V, len($t) - $o) == 0 && (len($t) > $o ==> b58.rest($V, len($t) - $o - 1) > 0)
+//@   assert after Encode#1: lemma b58_rest_zero($V, len($t) - $o, (len(s) - $o) - 1 - (len($t) - $o))
+//@   assert after Encode#1: lemma b58_rest_zero($V, (len(s) - $o), len($t) - $o - 1 - (len(s) - $o))
+//@   assert after Encode#1 as LN: len($t) == len(s) && 0 <= $o && $o <= len(s)
+//@   assert after Encode#1 as T1: forall k :: 0 <= k && k < $o ==> $t[k] == 49 && $t[k] == s[k]
+//@   assert after Encode#1: forall k :: $o <= k && k < len($t) ==> $t[k] == b58.chr(b58.rest($V, len($t) - 1 - k) % 58)
+//@   assert after Encode#1: lemma be_nonneg($arg0, len($arg0))
+//@   assert after Encode#1: lemma b58_val_suffix($t, $o, len($t), $V, len($t) - $o)
+//@   assert after Encode#1: b58.valfrom($t, $o, len($t)) == $V
+//@   assert after Encode#1: lemma b58_val_is_valr($t, $o, (len(s) - $o))
+//@   assert after Encode#1: b58.valr($t, $o, (len(s) - $o)) == b58.valr(s, $o, (len(s) - $o))
+//@   assert after Encode#1 as DC from nothing: forall v u8 :: v < 58 ==> b58.dig(b58.chr(int(v))) == int(v)
+//@   assert after Encode#1 as TV: forall k :: $o <= k && k < len($t) ==> 0 <= b58.dig($t[k]) && b58.dig($t[k]) < 58
+//@   assert after Encode#1: lemma b58_valr_unique($t, $o, s, $o, (len(s) - $o))
+//@   assert after Encode#1 as U1: forall k :: 0 <= k && k < (len(s) - $o) ==> b58.dig($t[$o + k]) == b58.dig(s[$o + k])
+//@   assert after Encode#1 as CD from nothing: forall c u8 :: b58.dig(c) != 255 ==> b58.chr(b58.dig(c)) == c
+//@   assert after Encode#1 as T2 from U1, CD, SV, TV, LN: forall k :: $o <= k && k < len(s) ==> $t[k] == s[k]
+//@   assert after Encode#1 from T1, T2, LN: len($t) == len(s) && forall k :: 0 <= k && k < len(s) ==> $t[k] == s[k]
